@@ -31,10 +31,64 @@ func (c *chunkWriter) Write(p []byte) (int, error) {
 	return len(p), nil
 }
 
+// pipelinedCase: full-duplex traffic in which each end writes `ahead` records before it reads any of
+// the peer's, across the first key rotations: the two ends then perform the send-side and the
+// receive-side rotations in different orders, and every record must still decrypt.
+func pipelinedCase(r *Recorder, kk bool, ahead, rounds int) {
+	pass := []byte("pairing-phrase-entropy")
+	cli := &hsSide{Priv: key(3011), Passphrase: pass, Min: 0, Max: 2}
+	srv := &hsSide{Priv: key(3012), Passphrase: pass, AuthData: []byte("auth"), Min: 0, Max: 2}
+	if kk {
+		cli.Remote, srv.Remote = srv.Priv.PubKey(), cli.Priv.PubKey()
+		cli.Min, srv.Min = 2, 2
+	}
+	cc, sc := newMemPair()
+	runHandshake(cli, srv, cc, sc)
+	if cli.Err != nil || srv.Err != nil {
+		r.Violate("C08/setup", fmt.Sprintf("handshake failed: %v %v", cli.Err, srv.Err), kk)
+		return
+	}
+	m := [2]*mailbox.Machine{cli.Machine, srv.Machine}
+	total := 0
+	for round := 0; round < rounds; round++ {
+		var wire [2][][]byte
+		var plain [2][][]byte
+		for d := 0; d < 2; d++ {
+			for i := 0; i < ahead; i++ {
+				p := patterned(3+(i+d)%5, total+i)
+				h, b, err := writeRecord(m[d], p)
+				if err != nil {
+					r.Violate("C08/write-failed", err.Error(), total+i)
+					return
+				}
+				wire[d] = append(wire[d], append(append([]byte{}, h...), b...))
+				plain[d] = append(plain[d], p)
+			}
+		}
+		for d := 0; d < 2; d++ {
+			for i := range wire[d] {
+				got, err := m[1-d].ReadMessage(bytes.NewReader(wire[d][i]))
+				if err != nil || !bytes.Equal(got, plain[d][i]) {
+					r.Violate("C08/keys-out-of-step", fmt.Sprintf("pipelined full-duplex traffic (each end %d records ahead): record %d of direction %d does not decrypt: %v",
+						ahead, total+i, d, err), map[string]interface{}{"kk": kk, "ahead": ahead, "record": total + i, "dir": d})
+					return
+				}
+			}
+		}
+		total += ahead
+	}
+	r.Case(fmt.Sprintf("pipelined:%v:%d:%d", kk, ahead, rounds), true, "pipelined-rotation")
+}
+
 func TestC08(t *testing.T) {
 	r := NewRecorder(t, "C08")
 	defer r.Close(t)
 	rng := newRand(8)
+	for _, kk := range []bool{false, true} {
+		pipelinedCase(r, kk, 520, 3) // every round crosses a rotation in both directions
+		pipelinedCase(r, kk, 250, 5) // rotations fall inside a round
+		pipelinedCase(r, kk, 1, 1100)
+	}
 	for _, kk := range []bool{false, true} {
 		pass := []byte("pairing-phrase-entropy")
 		auth := []byte("macaroon: 0201036c6e640224030a10f1c3ac8f073a7fbfe9ee1bd1a3c1b6")
